@@ -189,6 +189,18 @@ def prove_path(entry, path, opts):
         if bad:
             try: res['den_roots'] = den_roots(C, entry, path, bad)
             except Exception as ex: res['den_roots_error'] = repr(ex)
+            # the solver's own models of "denominator = 0 on this path" are candidate inputs as well (e.g. a unit complex number
+            # at the half turn, which no ray through the witness reaches)
+            try:
+                badlabs = [lab for lab, _ in sidechecks if lab.startswith('den:') and rs[lab][0] == 'sat'][:3]
+                rm = smt.run_checks(pre, [(lab, dict(sidechecks)[lab]) for lab in badlabs], per_check_ms=opts.get('per_check_ms', 20000), jobs=2, models=True, tactic='qfnra-nlsat')
+                for lab in badlabs:
+                    if rm[lab][0] != 'sat': continue
+                    m = smt.parse_model(rm[lab][1])
+                    mv = {int(k[1:]): val for k, val in m.items() if k[1:].isdigit() and int(k[1:]) in nodes and nodes[int(k[1:])].op == 'var'}
+                    for asg in (complete_model(entry, path, mv) or [mv])[:2]:
+                        res.setdefault('den_roots', []).append({k: float(v) for k, v in asg.items()})
+            except Exception as ex: res['den_model_error'] = repr(ex)
     res['side'] = len(side); res['side_ok'] = sum(1 for _, v in side if v == 'unsat')
     res['side_fail'] = [(l, v) for l, v in side if v != 'unsat'][:20]
     for lab, _ in claimchecks:
